@@ -103,4 +103,13 @@ def GTransfer.sendAllowed (g : GTransfer) : Bool :=
   | none => false
   | some m => m.isGhost
 
+/-- `Global::Transfer::convert(coarse_muxer, other)`: the new muxer pointer, the local transfer converted field-wise
+(`_vec_tmp` is scratch) -/
+def GTransfer.convert (mux : Option MuxerM) (cv : Rat → Rat) (g : GTransfer) : GTransfer :=
+  { muxer := mux, locals := g.locals.map (Transfer.convert cv) }
+
+/-- `Global::Transfer::clone(mode)`: same muxer, cloned local transfer -/
+def GTransfer.clone (m : CloneMode) (g : GTransfer) : GTransfer :=
+  { muxer := g.muxer, locals := g.locals.map (Transfer.clone m) }
+
 end FeatModel.GT
